@@ -71,6 +71,7 @@ func verifyFunc(L *Loaded, db *ContractDB, fn *ssa.Function, fc *FuncContract) *
 		}
 		st.focused = map[int]bool{}
 		st.callRes = map[string][]Val{}
+		st.callArgs = map[string][][]Val{}
 		x.applyFocus(st)
 		x.emitCover(st, key+"/cover:requires-satisfiable", fc.Src)
 		// syntactic frame check
@@ -218,6 +219,16 @@ func (x *Exec) atReturn(st *State, res []Val) {
 	for _, e := range x.fc.Ensures {
 		t := x.evalBool(st, e.SX, env)
 		x.emit(st, "post", key+"/ensures:"+e.Name, e, t)
+		if e.SX.Head() == "=>" && len(e.SX.List) == 3 {
+			// vacuity guard: the antecedent of a case-table row must be reachable on some returning path
+			a := x.evalBool(st, e.SX.List[1], env)
+			ob := &Obligation{Func: key, Kind: "cover-any", Name: key + "/cover:" + e.Name + "-antecedent-reachable", Props: e.Props, Path: strings.Join(st.path, "."), Src: e.Src, Expect: "sat-any"}
+			if len(ob.Props) == 0 {
+				ob.Props = x.fc.Props
+			}
+			ob.Script = strings.Join(st.lines, "\n") + "\n(assert " + a + ")\n"
+			x.obs = append(x.obs, ob)
+		}
 	}
 }
 
